@@ -94,6 +94,10 @@ def worker(args, scratch):
                         method, target = rr.choice([("PUT", "/vmAgentLog"), ("POST", "/machine/?comp=telemetrydata")])
                     else:
                         target = rr.choice(["/", "/a/b?x=1&y=2", "/machine?comp=goalstate", "/p%20q/R?Z=%41", "/q?text=Loading...&range=1..5", "/s?path=../x&v=a..b"]) + ("" if rr.random() < 0.5 else "&" * 0)
+                    if not exempt and rr.random() < 0.08:
+                        # absolute-form request target naming the recorded destination (what a client configured with an HTTP proxy sends)
+                        dip, dport = wproxy.DESTS[dest]
+                        target = "http://%s:%d%s" % (dip, dport, rr.choice(["/abs/path?x=1&y=2", "/machine?comp=goalstate&incarnation=3", "/abs"]))
                     hs = gen_http.headers(rr)
                     if rr.random() < 0.15:
                         hs += [("X-Rep", "one"), ("x-rep", "two")]
